@@ -260,6 +260,9 @@ func (e *Engine) post(inst party.ID, p *Party) Post {
 				po.Rnd = r
 			}
 		}
+		if len(s.Rounds) == 0 {
+			po.Rnd = s.Round // two-party handler: only the current round is known
+		}
 	}
 	if st.St == "err" {
 		po.Ek = ClassifyErr(st.Err, p.ID, st.Culprits)
